@@ -6,6 +6,8 @@ def run(ctx):
     invariance.rule_parametricity(ctx)
     invariance.rule_component_extraction(ctx)
     provenance.rule_argument_provenance(ctx)
+    provenance.rule_literal_provenance(ctx)
+    invariance.rule_attack_multiplicity(ctx)
     readers.rule_declaration_order(ctx)
     ctx.assume("parametricity: code generic in T with only LabelType's bounds, no reflection and no iteration of label-keyed maps cannot branch on what a label is, only on equality of labels")
     ctx.assume("rustc's generics/predicates tables and MIR")
